@@ -125,6 +125,8 @@ WIDE_BUNDLES = [
     dict(waste="doubled_prices_in_country", ratio_stocks_untouched="zero", shutoff="continued", NMONTHS=72),
     dict(scenario="seaweed", crop_disruption="country_nuclear_winter", grasses="country_nuclear_winter", fish="nuclear_winter",
          waste="tripled_prices_in_country", ratio_stocks_untouched="no_stored_between_years", shutoff="short_delayed_shutoff", NMONTHS=84),
+    # nothing in store when the run starts: the first months are the lean ones, and the no-feed round stays below a 100 % minimum share
+    dict(stored_food="zero", shutoff="continued"),
 ]
 
 
@@ -235,7 +237,7 @@ class Capture:
                         out = orig(self_, *a, **k)
                     finally:
                         cap.current_round = None
-                    cap.rounds[tag] = dict(args=a, out=out)
+                    cap.rounds[tag] = dict(args=a, out=out, obj=self_)
                     return out
                 return w
             return deco
